@@ -39,6 +39,10 @@ CHECKS = {
    "Seeded search over process lifetimes: each lifetime is one fresh interpreter that executes a sequence of generated histories of public-API operations back to back, with rejected operations, sympy-cache flushes, garbage collections and (thorough) interrupts injected at seeded library source lines. Oracles: O2 every live object keeps its fingerprint after every operation; O1/O3-late every operation's dependency closure re-executed on fresh objects in the same, by then well used, process reproduces the history's result; O1/O3 canary operations spliced into every history equal their reference computed alone in a fork of an import-only process. A clean batch is evidence, not proof.",
    "Trusts: the fingerprint covers the observable state the property lists; fork of an import-only process == fresh interpreter (cross-checked on a sample each batch); hash seed, sympy cache size and ASLR are held equal between history and reference. CPython, sympy, qiskit are real; only the ipykernel marker module and a temp directory are stubs.",
    "deterministic simulation: seeded API-operation histories with fault injection, reference-model oracles"),
+ "C14": chk("C14", "DESIGN.md §5",
+   "Model-based state machine run under the seeded simulator: real QCircuit/QCircuitEnhanced objects are driven by generated histories of composition operators (append_circuit with injective remaps, +, +=, repeat, copy, remove_identities, qft;iqft, add_qubit) and builder calls on any pool member, mirrored by a reference model (qubit count + unitary composed by the model's own rule) and checked after every step over the whole pool: the operator completes (A0), the target/result has the model's unitary (A1), nobody but the target changed structurally (A2); independence over time follows from re-checking after every later mutation. A clean batch is evidence, not proof.",
+   "Trusts: one gate-list -> matrix function (numpy) shared by model and observer; QCircuit.random and compiled circuits trusted at creation only; remaps injective and in range; repeat for n >= 1; circuits up to 5-6 qubits.",
+   "deterministic simulation: seeded operator histories on a circuit pool against a unitary reference model"),
 }
 
 def main(claimed):
